@@ -578,6 +578,8 @@ func (r *Runner) exec(op *OpSpec, st *Step) (res *Rec) {
 		return r.execDec(op, st)
 	case "decenum":
 		return r.execDecEnum(op, st)
+	case "decseq":
+		return r.execDecSeq(op, st)
 	case "legacy":
 		return r.execLegacy(op, st)
 	case "arg":
@@ -781,6 +783,36 @@ func (r *Runner) execDec(op *OpSpec, st *Step) *Rec {
 		}
 	}
 	res := r.decodeOnce(op, st, sd, m, in, dst)
+	return res
+}
+
+// execDecSeq decodes several messages - the first one possibly damaged - one after the other into the same
+// destination: the destination's prior contents are then what an earlier, possibly failed, decode left behind.
+func (r *Runner) execDecSeq(op *OpSpec, st *Step) *Rec {
+	sd := r.C.Get(op.Type)
+	rt := corpus.Types[op.Type]
+	dst := reflect.New(rt)
+	res := &Rec{Cls: "ok", Tag: "decseq/" + op.Fault + "/" + sd.Shape()}
+	acc := make([]byte, 0, 256)
+	for k := 0; k < op.Omit; k++ {
+		sub := *op
+		sub.Omit = 0
+		sub.VSeed = model.Mix(op.VSeed, uint64(k))
+		sub.FSeed = model.Mix(op.FSeed, uint64(k))
+		if k%2 == 1 {
+			sub.Fault = "none"
+		}
+		m := r.buildMessage(&sub)
+		in := r.guardedFor(st.Task, len(m.bytes)).place(m.bytes)
+		one := r.decodeOnce(&sub, st, sd, m, in, dst)
+		acc = append(acc, one.D...)
+		acc = append(acc, ';')
+		res.N += one.N
+		if one.Cls == "panic" {
+			res.Cls, res.Err = "panic", one.Err
+		}
+	}
+	res.D = model.Digest(acc)
 	return res
 }
 
